@@ -176,6 +176,17 @@ Theorem C03_converges : forall hc hu lc T,
 Proof. exact calm_convergence. Qed.
 Print Assumptions C03_converges.
 
+(* ... and exactly once: on the way to rest no handler succeeds twice (the log gains exactly one successful invocation
+   of every handler that was pending). *)
+Theorem C03_served_exactly_once : forall hc hu lc T,
+  NoDup (hc ++ hu) -> has_handlers hc hu = true ->
+  forall w h, calm hc hu w -> pending_handler hc hu w h ->
+  forall n, let w' := drive hc hu lc T (repeat ok n) w in
+    settled hc hu (w_srv w') = true ->
+    exists extra, w_log w' = w_log w ++ extra /\ okcount h extra = 1.
+Proof. exact calm_serves_exactly_once. Qed.
+Print Assumptions C03_served_exactly_once.
+
 (* ... within [rank] steps *)
 Theorem C03_converges_bounded : forall hc hu lc T,
   NoDup (hc ++ hu) -> has_handlers hc hu = true ->
